@@ -93,7 +93,7 @@ theorem local_pre {s s' : St} {l : Label} (hi : TInv s) (h : step s l = some s')
     obtain ⟨hfs, _, _⟩ := dstep_fan_facts (by simpa [step] using h)
     cases fl with
     | d a =>
-      obtain ⟨hcr, _⟩ := Fan.pc_step_d hi.fan hfs
+      obtain ⟨hcr, _⟩ := FanG.pc_step_d hi.fan hfs
       cases a with
       | create k =>
         obtain ⟨_, _, hidle⟩ := hcr k rfl
@@ -103,10 +103,10 @@ theorem local_pre {s s' : St} {l : Label} (hi : TInv s) (h : step s l = some s')
         · simp [localOf, fanLocal, hkj]
       | lock | wait | wake _ | relock | unlock | ret => simp [localOf, fanLocal]
     | w k a =>
-      obtain ⟨hpre, _, _⟩ := Fan.pc_step_w hfs
+      obtain ⟨hpre, _, _⟩ := FanG.pc_step_w hfs
       by_cases hkj : k = j
       · subst hkj; rw [hpre] at hsy
-        cases a <;> simp [localOf, fanLocal] <;> simpa [phOK, Fan.WAct.pre] using hsy
+        cases a <;> simp [localOf, fanLocal] <;> simpa [phOK, FanG.WAct.pre] using hsy
       · cases a <;> simp [localOf, fanLocal, hkj]
 
 /-! ## `death` and `reaped` -/
@@ -179,7 +179,7 @@ theorem dhost_hostStep {c : Cfg} {sc : Script} {now wake : Nat} {h : Host} {lo :
 
 /-- how the worker's program counter and `reaped` go together: the slot is released (`torn` and later) only
     after `rcmd_destroy` has returned with the command gone -/
-def rpOK : Fan.W → Bool → Prop
+def rpOK : FanG.W → Bool → Prop
   | .idle, r => r = false
   | .started, r => r = false
   | .connecting, r => r = false
@@ -190,7 +190,7 @@ def rpOK : Fan.W → Bool → Prop
 /-- the teardown invariant of a state -/
 structure DInv (s : St) : Prop where
   host : ∀ j, j < s.hs.length → DHost s.now (s.host j)
-  reap : ∀ j, j < s.hs.length → rpOK (Fan.pc s.fan j) (s.host j).reaped
+  reap : ∀ j, j < s.hs.length → rpOK (FanG.pc s.fan j) (s.host j).reaped
 
 theorem dinv_init (v f c scripts) : DInv (init v f c scripts) := by
   constructor
@@ -200,8 +200,8 @@ theorem dinv_init (v f c scripts) : DInv (init v f c scripts) := by
   · intro j hj
     have hj' : j < scripts.length := by simpa [init] using hj
     rw [host_init v f c scripts hj']
-    show rpOK (Fan.pc (Fan.init v f scripts.length) j) _
-    rw [Fan.pc_init]; simp [rpOK, initHost]
+    show rpOK (FanG.pc (FanG.init v f scripts.length) j) _
+    rw [FanG.pc_init]; simp [rpOK, initHost]
 
 theorem dinv_step {s s' : St} {l : Label} (hi : TInv s) (hd : DInv s) (h : step s l = some s') : DInv s' := by
   have hpar := step_params h
@@ -261,7 +261,7 @@ theorem dinv_step {s s' : St} {l : Label} (hi : TInv s) (hd : DInv s) (h : step 
       obtain ⟨hfs, _, _⟩ := dstep_fan_facts (by simpa [step] using h)
       cases fl with
       | d a =>
-        obtain ⟨hcr, hpc⟩ := Fan.pc_step_d hi.fan hfs
+        obtain ⟨hcr, hpc⟩ := FanG.pc_step_d hi.fan hfs
         have hne : localOf j (.fan (.d a)) ≠ .destEnd := by
           cases a <;> simp [localOf, fanLocal]
           rename_i k; split <;> simp
@@ -274,7 +274,7 @@ theorem dinv_step {s s' : St} {l : Label} (hi : TInv s) (hd : DInv s) (h : step 
           · simp only [hkj, if_false]; exact hr
         | lock | wait | wake _ | relock | unlock | ret => exact hr
       | w k a =>
-        obtain ⟨hpre, _, hpc⟩ := Fan.pc_step_w hfs
+        obtain ⟨hpre, _, hpc⟩ := FanG.pc_step_w hfs
         rw [hpc j]
         by_cases hkj : j = k
         · subst hkj
@@ -283,12 +283,12 @@ theorem dinv_step {s s' : St} {l : Label} (hi : TInv s) (hd : DInv s) (h : step 
           cases a with
           | destroyEnd =>
             have hfin : (s.host j).ph = .finished := by
-              have := hi.sync j hj; rw [hpre] at this; simpa [phOK, Fan.WAct.pre] using this
+              have := hi.sync j hj; rw [hpre] at this; simpa [phOK, FanG.WAct.pre] using this
             obtain ⟨_, _, h3, _⟩ := hostInv_destEnd (sc := s.script j) (hi.hosts j hj) hfin
-            simp only [localOf, fanLocal, if_true, h3]; simp [rpOK, Fan.WAct.post]
-          | connectBegin | connectEnd | destroyBegin | lock | signal | unlock =>
+            simp only [localOf, fanLocal, if_true, h3]; simp [rpOK, FanG.WAct.post]
+          | connectBegin | connectEnd | destroyBegin | lock | signal | unlock | unlockFirst | signalAfter =>
             rw [hrp.1 (by simp [localOf, fanLocal])]
-            simpa [rpOK, Fan.WAct.pre, Fan.WAct.post] using hr
+            simpa [rpOK, FanG.WAct.pre, FanG.WAct.post] using hr
         · have hne : localOf j (.fan (.w k a)) ≠ .destEnd := by
             have hkj' : ¬ k = j := fun hc => hkj hc.symm
             cases a <;> simp [localOf, fanLocal, hkj']
@@ -331,18 +331,18 @@ theorem countP_congr_idx {α β : Type} (p : α → Bool) (q : β → Bool) (da 
 
 /-- a target is in flight in the Timed sense exactly when its worker is, in the Fan sense -/
 theorem inflight_iff_flying {s : St} (hi : TInv s) (hd : DInv s) {j : Nat} (hj : j < s.hs.length) :
-    (s.host j).inflight = Fan.flying (Fan.pc s.fan j) := by
+    (s.host j).inflight = FanG.flying (FanG.pc s.fan j) := by
   have h1 := hi.sync j hj
   have h2 := hd.reap j hj
-  cases hw : Fan.pc s.fan j <;> rw [hw] at h1 h2 <;> simp only [phOK, rpOK] at h1 h2 <;>
-    simp [Host.inflight, Fan.flying, h2]
+  cases hw : FanG.pc s.fan j <;> rw [hw] at h1 h2 <;> simp only [phOK, rpOK] at h1 h2 <;>
+    simp [Host.inflight, FanG.flying, h2]
   all_goals first
     | (rcases h1 with h1 | h1 <;> simp [h1])
     | simp [h1]
 
-theorem inflight_eq_fan {s : St} (hi : TInv s) (hd : DInv s) : s.inflight = Fan.inflight s.fan := by
-  unfold St.inflight Fan.inflight
-  apply countP_congr_idx Host.inflight Fan.flying (initHost s.cfg defaultScript) Fan.W.idle _ _ hi.lenH
+theorem inflight_eq_fan {s : St} (hi : TInv s) (hd : DInv s) : s.inflight = FanG.inflight s.fan := by
+  unfold St.inflight FanG.inflight
+  apply countP_congr_idx Host.inflight FanG.flying (initHost s.cfg defaultScript) FanG.W.idle _ _ hi.lenH
   intro j hj
   exact inflight_iff_flying hi hd hj
 
